@@ -1313,7 +1313,7 @@ class FuncAnalysis:
         try:
             # a *finder* - a loop over a literal table that returns at its first match - is read as the if-chain it
             # abbreviates (sa/normalise.py), so that its result is a decision tree and not "something from a loop"
-            if not isinstance(callee.node, ast.Lambda) and any(isinstance(st_, ast.For) and any(isinstance(y_, ast.Return) for y_ in ast.walk(st_)) for st_ in callee.node.body) and not callee.__dict__.get("_unrolled_from"):
+            if not isinstance(callee.node, ast.Lambda) and any((isinstance(st_, ast.For) and any(isinstance(y_, ast.Return) for y_ in ast.walk(st_))) or (isinstance(st_, ast.Return) and isinstance(st_.value, ast.Call) and isinstance(st_.value.func, ast.Name) and st_.value.func.id == "next" and st_.value.args and isinstance(st_.value.args[0], ast.GeneratorExp)) for st_ in callee.node.body) and not callee.__dict__.get("_unrolled_from"):
                 from .normalise import unrolled as _unrolled
 
                 try:
